@@ -41,7 +41,8 @@ Entry(p, pid) == [rid |-> p.qid, pid |-> pid, ins |-> Sec(cnow), exp |-> Sec(cno
 HitSound(k, rid) == /\ k \in DOMAIN cache
                     /\ cache[k].rid = rid
                     /\ Sec(cnow) < cache[k].exp
-Decremented(ttl, k) == LET d == Sec(cnow) - cache[k].ins IN IF d > ttl THEN 0 ELSE ttl - d
+Big == 1073741824      \* TTLs and lifetimes of 2^30 s or more are logged saturated at this value ("far future")
+Decremented(ttl, k) == LET d == Sec(cnow) - cache[k].ins IN IF ttl >= Big THEN Big ELSE IF d > ttl THEN 0 ELSE ttl - d
 TtlsSound(k, ttls) == /\ Len(ttls) = Len(cache[k].ttls)
                       /\ \A i \in 1..Len(ttls) : ttls[i] = Decremented(cache[k].ttls[i], k)
 
